@@ -75,6 +75,10 @@ type CmdSpec struct {
 	// parent's struct (possible for non-executable commands whose parent is the
 	// parser or another tag-declared command) instead of through AddCommand.
 	ViaTag bool `json:"via_tag,omitempty"`
+	// Namespace / EnvNamespace set on the command itself (they prefix the names
+	// of every option below it).
+	Namespace    string `json:"namespace,omitempty"`
+	EnvNamespace string `json:"env_namespace,omitempty"`
 	// Usage: the command's data implements flags.Usage with this text (executable commands).
 	Usage string `json:"usage,omitempty"`
 }
@@ -95,7 +99,9 @@ type DeclSpec struct {
 	Usage          string       `json:"usage,omitempty"`
 	ShortDesc      string       `json:"short_desc,omitempty"`
 	LongDesc       string       `json:"long_desc,omitempty"`
-	Reenter        bool         `json:"reenter,omitempty"` // Execute / handler / callbacks call back into the parser (WriteHelp)
+	Namespace      string       `json:"namespace,omitempty"`     // set on the parser itself
+	EnvNamespace   string       `json:"env_namespace,omitempty"` // set on the parser itself
+	Reenter        bool         `json:"reenter,omitempty"`       // Execute / handler / callbacks call back into the parser (WriteHelp)
 }
 
 // V is a kind-independent value: scalars as text, containers as lists.
@@ -458,6 +464,8 @@ func (b *Built) finishTagCmds(parent *flags.Command, cmds []*CmdSpec, path []str
 			return fmt.Errorf("tag-declared command %q was not created by the library", strings.Join(p, "."))
 		}
 		b.Cmds = append(b.Cmds, &BuiltCmd{Path: p, Spec: c, Cmd: fc})
+		fc.Namespace = c.Namespace
+		fc.EnvNamespace = c.EnvNamespace
 		h := hidden || c.Hidden
 		for _, g := range c.Groups {
 			rv := reflect.New(groupType(g))
@@ -510,15 +518,26 @@ type BuiltCmd struct {
 	Cmd  *flags.Command
 }
 
+func (b *Built) infos() map[string]optInfo {
+	if b.infoByPath == nil {
+		b.infoByPath = map[string]optInfo{}
+		for _, oi := range optInfos(b.Spec) {
+			b.infoByPath[oi.Path] = oi
+		}
+	}
+	return b.infoByPath
+}
+
 type Built struct {
-	P       *flags.Parser
-	Spec    *DeclSpec
-	Opts    []*BuiltOpt
-	Args    []*BuiltArg
-	ByPath  map[string]*BuiltOpt
-	Cmds    []*BuiltCmd
-	Err     error // declaration rejected by the library
-	KeptIni *flags.IniParser
+	infoByPath map[string]optInfo
+	P          *flags.Parser
+	Spec       *DeclSpec
+	Opts       []*BuiltOpt
+	Args       []*BuiltArg
+	ByPath     map[string]*BuiltOpt
+	Cmds       []*BuiltCmd
+	Err        error // declaration rejected by the library
+	KeptIni    *flags.IniParser
 }
 
 func nsDelim(d *DeclSpec) string {
@@ -565,11 +584,8 @@ func (b *Built) bindGroup(g *GroupSpec, v reflect.Value, c walkCtx, gpath string
 			Path: strings.Join(c.cmdPath, ".") + "|" + gpath + "|" + o.Field, Spec: o, Val: fv, Group: g,
 			CmdPath: c.cmdPath, Section: section, InHidden: hidden,
 		}
-		if o.Long != "" {
-			bo.LongFull = strings.Join(append(append([]string{}, ns...), o.Long), nsDelim(b.Spec))
-		}
-		if o.Env != "" {
-			bo.EnvFull = strings.Join(append(append([]string{}, ens...), o.Env), envNSDelim(b.Spec))
+		if oi, ok := b.infos()[bo.Path]; ok {
+			bo.LongFull, bo.EnvFull = oi.LongFull, oi.EnvFull
 		}
 		if isFuncKind(o.Kind) {
 			fv.Set(makeCallback(bo.Path, fv.Type()))
@@ -656,6 +672,8 @@ func Build(spec *DeclSpec) (b *Built) {
 	if spec.EnvNSDelim != "" {
 		p.EnvNamespaceDelimiter = spec.EnvNSDelim
 	}
+	p.Namespace = spec.Namespace
+	p.EnvNamespace = spec.EnvNamespace
 	p.SubcommandsOptional = spec.SubOptional
 	p.Usage = spec.Usage
 	p.ShortDescription = spec.ShortDesc
@@ -780,6 +798,8 @@ func (b *Built) addCmd(parent *flags.Command, c *CmdSpec, path []string, hidden 
 	fc.Aliases = c.Aliases
 	fc.Hidden = c.Hidden
 	fc.SubcommandsOptional = c.SubOptional
+	fc.Namespace = c.Namespace
+	fc.EnvNamespace = c.EnvNamespace
 	b.Cmds = append(b.Cmds, &BuiltCmd{Path: path, Spec: c, Cmd: fc})
 	groups := c.Groups
 	if c.Exec && c.Own != nil {
